@@ -10,8 +10,12 @@ package verifrt
 
 import (
 	"fmt"
+	"os"
+	"runtime"
 	"runtime/debug"
+	"strconv"
 	"strings"
+	"time"
 )
 
 type tstate uint8
@@ -48,6 +52,8 @@ type Exec struct {
 	Blocked     []string // threads left blocked at the end ("name: what")
 	Aborted     bool     // horizon reached
 	Panics      []string // "thread: value\nstack"
+	Stuck       bool     // the running thread did not come back to the scheduler within the watchdog time
+	StuckDump   string   // goroutine dump taken then
 	Preemptions int
 	DataDevs    int
 	Switches    int
@@ -252,6 +258,9 @@ func trimStack(b []byte) string {
 // with prefix and 0 afterwards, and returns when every thread has finished,
 // nothing can run any more (deadlock) or the horizon of steps is reached.
 func Run(prefix []int, horizon int, main func()) *Exec {
+	if poisoned {
+		panic("verifrt: an earlier execution of this process is stuck; no further execution can be controlled")
+	}
 	if active != nil {
 		panic("verifrt: nested Run")
 	}
@@ -263,9 +272,43 @@ func Run(prefix []int, horizon int, main func()) *Exec {
 	t0 := s.spawn("main", main)
 	s.cur = t0
 	t0.wake <- struct{}{}
-	<-s.finished
+	watchdog.Reset(stuckAfter)
+	select {
+	case <-s.finished:
+		if !watchdog.Stop() {
+			select {
+			case <-watchdog.C:
+			default:
+			}
+		}
+	case <-watchdog.C:
+		// The running thread waits for something the scheduler does not model (a channel, a
+		// condition variable, the network, a spin loop): nothing can be concluded from this
+		// execution, and since the thread may come back at any time the process cannot run
+		// another one. The record handed out is a copy.
+		poisoned = true
+		buf := make([]byte, 1<<16)
+		buf = buf[:runtime.Stack(buf, true)]
+		x := &Exec{Steps: append([]Step(nil), s.x.Steps...), Stuck: true, StuckDump: string(buf)}
+		return x
+	}
 	active = nil
 	return s.x
+}
+
+// Poisoned reports whether an execution of this process got stuck (see Run).
+func Poisoned() bool { return poisoned }
+
+var (
+	poisoned   bool
+	stuckAfter = 90 * time.Second
+	watchdog   = func() *time.Timer { t := time.NewTimer(time.Hour); t.Stop(); return t }()
+)
+
+func init() {
+	if v, err := strconv.Atoi(os.Getenv("VERIF_STUCK_S")); err == nil && v > 0 {
+		stuckAfter = time.Duration(v) * time.Second
+	}
 }
 
 // P is the scheduling point the instrumenter inserts before every statement.
